@@ -64,18 +64,22 @@ fn to_wpr(m: &Matrix3<f64>) -> (f64, f64, f64) {
     // https://www.geometrictools.com/Documentation/EulerAngles.pdf
     let sin_y = m[(0, 2)];
 
-    if sin_y > 1.0 - EPSILON {
+    // The gimbal lock test uses cos(y) = |(m00, m01)| directly: `1 - sin(y)` loses half the digits,
+    // which made every pitch within 1.4e-4 rad of the poles be treated as locked
+    let cos_y = m[(0, 0)].hypot(m[(0, 1)]);
+
+    if cos_y < EPSILON && sin_y > 0.0 {
         let ry = PI / 2.0;
         let rx = m[(1, 0)].atan2(m[(1, 1)]);
         let rz = 0.0;
         (rx, ry, rz)
-    } else if sin_y < EPSILON - 1.0 {
+    } else if cos_y < EPSILON {
         let ry = -PI / 2.0;
         let rx = -(m[(1, 0)].atan2(m[(1, 1)]));
         let rz = 0.0;
         (rx, ry, rz)
     } else {
-        let ry = sin_y.asin();
+        let ry = sin_y.atan2(cos_y);
         let rx = (-m[(1, 2)]).atan2(m[(2, 2)]);
         let rz = (-m[(0, 1)]).atan2(m[(0, 0)]);
         (rx, ry, rz)
